@@ -43,6 +43,8 @@ func (s *State) clone() *State {
 
 type Obligation struct {
 	Name    string
+	CandLoop, CandIdx int // obligation of a candidate invariant: loop ordinal and 1 + index into the loop's Invs
+	Presolved bool // already decided while candidate invariants were sifted
 	Kind    string // ensures, pre, bounds, nil, assert, unwind, inv-init, inv-preserve, frame, div, typeassert, panic, cover, lang
 	Tags    []string
 	Fn      string
@@ -137,6 +139,8 @@ type Exec struct {
 	ucalls     []ucallRec // calls of unknown callees, in execution order
 	arbRegs    map[ssa.Value]Val
 	arbBools   map[string]*Term
+	usesCallRes int // 0 unknown, 1 yes, -1 no
+	arrayInit  bool // initVal: array-typed initialisers become array values (not table slices)
 	curBlock   *ssa.BasicBlock // block being executed at inline depth 0
 	stepOutcomes map[int][][2]*Term // loop ordinal -> (guard, reported in the iteration) per back edge
 }
@@ -587,6 +591,68 @@ func (x *Exec) mergeStates(b *ssa.BasicBlock, ins []*inEdge) *State {
 			st.Regs[k] = v
 		}
 	}
+	if x.inlineDepth == 0 && x.fc != nil && x.fcUsesCallResults() {
+		// Specifications of this function address the results of calls in its body (callres / callReported). A call
+		// that ran on some of the merged paths only keeps its result there (and is arbitrary on the others) instead
+		// of being forgotten at the join.
+		union := map[ssa.Value]bool{}
+		for _, e := range ins {
+			for k := range e.St.Regs {
+				if _, isCall := k.(*ssa.Call); isCall {
+					if _, have := st.Regs[k]; !have {
+						union[k] = true
+					}
+				}
+			}
+		}
+		var ks []ssa.Value
+		for k := range union {
+			ks = append(ks, k)
+		}
+		sort.Slice(ks, func(i, j int) bool { return ks[i].Name() < ks[j].Name() })
+		for _, k := range ks {
+			k := k
+			if v, ok := mergeVals(func(s *State) (Val, bool) {
+				if v, ok := s.Regs[k]; ok {
+					return v, true
+				}
+				return x.regOrArbitrary(s, k), true
+			}); ok {
+				st.Regs[k] = v
+			}
+		}
+		gunion := map[string]bool{}
+		for _, e := range ins {
+			for g := range e.St.Ghost {
+				if strings.HasPrefix(g, "$rep.") {
+					gunion[g] = true
+				}
+			}
+		}
+		var gs []string
+		for g := range gunion {
+			gs = append(gs, g)
+		}
+		sort.Strings(gs)
+		for _, g := range gs {
+			g := g
+			if x.arbBools == nil {
+				x.arbBools = map[string]*Term{}
+			}
+			if _, ok := x.arbBools["$join"+g]; !ok {
+				x.arbBools["$join"+g] = o.Fresh("notrun.reported"+g[4:], BoolSort)
+			}
+			arb := x.arbBools["$join"+g]
+			if v, ok := mergeVals(func(s *State) (Val, bool) {
+				if v, ok := s.Ghost[g]; ok {
+					return v, true
+				}
+				return arb, true
+			}); ok {
+				st.Ghost[g] = v
+			}
+		}
+	}
 	for _, k := range sortedCellKeys(ins[0].St.Cells) {
 		k := k
 		if v, ok := mergeVals(func(s *State) (Val, bool) { v, ok := s.Cells[k]; return v, ok }); ok {
@@ -792,7 +858,13 @@ func (x *Exec) cutLoopAtHeader(fn *ssa.Function, l *Loop, spec *LoopSpec, st *St
 	// 1. invariant holds on entry
 	env := x.loopEnv(fn, l, st)
 	for i, inv := range spec.Invs {
-		x.oblige("inv-init", fmt.Sprintf("loop%d.%d", l.Ordinal, i), inv.Tags, inv.Text, st.Guard, x.evalClause(env, inv))
+		if spec.Dropped[i] {
+			continue
+		}
+		ob := x.oblige("inv-init", fmt.Sprintf("loop%d.%d", l.Ordinal, i), inv.Tags, inv.Text, st.Guard, x.evalClause(env, inv))
+		if inv.Candidate {
+			ob.CandLoop, ob.CandIdx = l.Ordinal, i+1
+		}
 	}
 	// 2. havoc loop-carried state
 	for _, ins := range l.Header.Instrs {
@@ -872,7 +944,10 @@ func (x *Exec) cutLoopAtHeader(fn *ssa.Function, l *Loop, spec *LoopSpec, st *St
 	}
 	// 3. assume invariant
 	env = x.loopEnv(fn, l, st)
-	for _, inv := range spec.Invs {
+	for i, inv := range spec.Invs {
+		if spec.Dropped[i] {
+			continue
+		}
 		x.assume(o.Implies(st.Guard, x.evalClause(env, inv)))
 	}
 	if spec.Decreases != nil {
@@ -905,7 +980,13 @@ func (x *Exec) loopBackEdge(fn *ssa.Function, l *Loop, from *ssa.BasicBlock, st 
 	env := x.loopEnv(fn, l, ns)
 	spec := x.loopSpec(l)
 	for i, inv := range spec.Invs {
-		x.oblige("inv-preserve", fmt.Sprintf("loop%d.%d", l.Ordinal, i), inv.Tags, inv.Text, st.Guard, x.evalClause(env, inv))
+		if spec.Dropped[i] {
+			continue
+		}
+		ob := x.oblige("inv-preserve", fmt.Sprintf("loop%d.%d", l.Ordinal, i), inv.Tags, inv.Text, st.Guard, x.evalClause(env, inv))
+		if inv.Candidate {
+			ob.CandLoop, ob.CandIdx = l.Ordinal, i+1
+		}
 	}
 	if len(spec.Steps) > 0 {
 		// vacuity guard: over all back edges, some iteration reports and some stays silent
@@ -1151,4 +1232,26 @@ func fnMayTouchGhost(fn *ssa.Function, depth int) bool {
 		}
 	}
 	return false
+}
+
+// fcUsesCallResults: the contract of the function being verified mentions callres / callReported.
+func (x *Exec) fcUsesCallResults() bool {
+	if x.usesCallRes != 0 {
+		return x.usesCallRes > 0
+	}
+	x.usesCallRes = -1
+	mentions := func(t string) bool { return strings.Contains(t, "callres(") || strings.Contains(t, "callReported(") }
+	for _, c := range x.fc.Ensures {
+		if mentions(c.Text) {
+			x.usesCallRes = 1
+		}
+	}
+	for _, ls := range x.fc.Loops {
+		for _, c := range append(append(append([]*Clause{}, ls.Invs...), ls.Steps...), ls.Exits...) {
+			if mentions(c.Text) {
+				x.usesCallRes = 1
+			}
+		}
+	}
+	return x.usesCallRes > 0
 }
